@@ -318,6 +318,14 @@ example : witnessHelp = .exit 2 := by decide
 example : witnessDefault = .escapes .ArgumentError := by decide
 -- a failure that no region is designed to raise is outside the theorem (and escapes): the open finding about sub-command sections
 example : routePath tables .yaml false (.body .parseString) [.common, .subcommands] (.exc .AttributeError .clean) = .escapes .AttributeError := by decide
+-- merge_config → ActionTypeHint.discard_init_args_on_class_path_change is designed to raise nothing and has no handler of
+-- its own: an AttributeError there (seed C03-3A: `None.get` when the overriding spec has no init_args) escapes from the
+-- methods that MERGE a source with the defaults; the search watches for it (it must not be observed on the clean tree)
+example : ∀ top eff, born tables .yaml top eff .discardStatic = [] := by decide
+example : routePath tables .yaml false (.body .parseString) [.merge, .discardStatic] (.exc .AttributeError .clean)
+    = .escapes .AttributeError := by decide
+example : routePath tables .yaml true (.body .parseEnv) [.defaultsEnv, .merge, .discardStatic] (.exc .AttributeError .clean)
+    = .escapes .AttributeError := by decide
 -- a run of the pipeline that ends in the first unabsorbed failure
 example : runEvents tables .yaml true (.body .parseArgs)
     [⟨[.defaultsEnv, .getDefaults, .defPaths], some (.exc .PathError .clean)⟩,   -- unreadable default config: skipped
